@@ -20,7 +20,7 @@ MANIFEST = dict(
     technique="TLA+ spec + TLC exhaustive model checking of operation histories; edge-complete graph replay into the "
               "implementation with full heap projection after every step",
     design="5/C04")
-INVS = ["TypeOK", "PokeRejected", "EqExact", "EqReflexive", "EqTransitive"]
+INVS = ["TypeOK", "PokeRejected", "EqExact", "EqTruth", "EqReflexive", "EqTransitive"]
 PROPS = ["Frozen", "DerivedRight"]
 ALL = ["flat", "flat2", "cont", "deep", "nest", "gen", "genraw", "miss"]
 
@@ -178,7 +178,7 @@ class HeapDriver:
             return self._o("deepcopy" if deep else "copy", "equal" if same else "different")
         if name == "Compare":
             other = self.objs[args[1] - 1][1]
-            return self._o("eq", bool(o == other), bool(other == o), bool(o != other), bool(other != o))
+            return self._o("eq", bool(o == other), bool(other == o), bool(o != other), bool(other != o), args[0], args[1])
         raise ValueError(name)
 
     def _valid(self, cls, o, nv):
@@ -217,7 +217,7 @@ def run(rep, work, tier, seed):
     if tier == "thorough":
         small = dict(MaxObjs=3, MaxOps=3, Classes=["flat", "cont"])
         for bug, inv in (("setattr_allowed", ["Frozen", "PokeRejected"]), ("shares_input", ["Frozen"]),
-                         ("update_in_place", ["Frozen"]), ("eq_ignores_class", ["EqExact"])):
+                         ("update_in_place", ["Frozen"]), ("eq_ignores_class", ["EqTruth"])):
             leg_mutant(rep, work, SPEC, f"mutant_{bug}",
                        cfg_text(dict(small, Classes=["flat", "flat2", "cont"], Bug=bug), spec="Spec", invariants=INVS,
                                 properties=PROPS), inv + ["EqTransitive"])
